@@ -253,6 +253,19 @@ impl<Builder: OctetsBuilder> Decoder<Builder> {
     /// illegal. It is okay to push more data after the first error. The
     /// method will just keep returned errors.
     pub fn push(&mut self, ch: char) -> Result<(), DecodeError> {
+        // Once an error has happened, it is final.
+        if let Err(err) = self.target {
+            return Err(err);
+        }
+        let res = self.push_char(ch);
+        if let Err(err) = res {
+            self.target = Err(err);
+        }
+        res
+    }
+
+    /// Decodes one more character of data into a so far error-free decoder.
+    fn push_char(&mut self, ch: char) -> Result<(), DecodeError> {
         if self.next == 0xF0 {
             self.target = Err(DecodeError::TrailingInput);
             return Err(DecodeError::TrailingInput);
